@@ -15,6 +15,36 @@ RECV_ROOTS = lambda n: n.startswith(("__root_recv__", "__root_arecv__", "__root_
 FLEX_ROOTS = lambda n: n.startswith(("__root_flexapi__", "__root_flexpush", "__root_size__K_FlexVec"))
 
 
+def VALIDATION(F, R):
+    e5_formulas.gate_rules(F, R)
+    e6_generated.generated_rules(F, R, {"validate"})
+    e6_generated.tag_accept_rules(F, R)
+    e7_containers.vec_string_validators(F, R)
+    e7_containers.flex_reader(F, R)
+    e7_containers.flex_validator(F, R)
+    e7_containers.array_validator(F, R)
+
+
+def SIZES(F, R):
+    e5_formulas.size_formula_rules(F, R)
+    e6_generated.generated_rules(F, R, {"size"})
+    e7_containers.flex_size(F, R)
+
+
+def VIEWS(F, R):
+    e5_formulas.base_formula_rules(F, R)
+    e6_generated.generated_rules(F, R, {"ptr"})
+    e1_layout.layout_rules(F, R)
+
+
+def EMPLACE(F, R):
+    e6_generated.generated_rules(F, R, {"init"})
+    e7_containers.filling_emplacers(F, R)
+    e7_containers.empty_emplacers(F, R)
+    e7_containers.flex_writers(F, R)
+    e5_formulas.trait_method_rules(F, R)
+
+
 def c01(F, R):
     R.explain("C01 (validation is total): E2 risky-site inventory over the monomorphic call graph of validate/from_bytes/from_mut_bytes of every corpus type: "
               "every assert, diverging call, panicking boundary call and unsafe call reachable is discharged by a checked guard, gate, constant or stated lemma; "
@@ -281,6 +311,9 @@ def c15(F, R):
     e7_containers.flex_writers(F, R)
     errkind_inventory(F, R)
     e1_layout.layout_rules(F, R)
+    e7_containers.empty_emplacers(F, R)
+    e5_formulas.trait_method_rules(F, R)
+    e6_generated.generated_rules(F, R, {"ptr"})
     e9_witness.witness_rules(F, R)
 
 
@@ -298,6 +331,8 @@ def c17(F, R):
     e7_containers.flex_writers(F, R)  # item strides are rounded to ALIGN (= 1 for portable vectors): no padding bytes between items
     e7_containers.empty_emplacers(F, R)
     e8_portable.scalar_rules(F, R)
+    SIZES(F, R)  # size() rounds to ALIGN (= 1 for portable types): no padding is ever counted or sent
+    e1_layout.layout_rules(F, R)
     e9_witness.witness_rules(F, R)
 
 
@@ -310,6 +345,7 @@ def c18(F, R):
     e7_containers.flex_writers(F, R)
     e7_containers.empty_emplacers(F, R)
     e5_formulas.trait_method_rules(F, R)
+    VALIDATION(F, R)  # "still a valid value": what the validators demand is what the emplacers must leave behind
     composite_limit(F, R)
 
 
@@ -354,6 +390,10 @@ def c20(F, R):
     e6_generated.generated_rules(F, R, {"default", "init"})
     e7_containers.empty_emplacers(F, R)
     e2_guards.guard_rules(F, R, lambda n: n.startswith("__root_default__"), "default", 100)
+    VALIDATION(F, R)  # "the result validates"
+    SIZES(F, R)       # "has the minimal size() for that state"
+    e7_containers.filling_emplacers(F, R)
+    e7_containers.flex_writers(F, R)
 
 
 PROPS = {
